@@ -358,7 +358,7 @@ func cmdCheck(args []string) {
 		for _, a := range hs.Anchors {
 			hit := false
 			for f := range st.Funcs {
-				if strings.HasSuffix(f, a) {
+				if sf := shortFn(f); sf == a || strings.HasSuffix(sf, "."+a) || strings.HasSuffix(f, a) {
 					hit = true
 				}
 			}
@@ -415,6 +415,8 @@ func cmdCheck(args []string) {
 		}
 		seenKnown := map[string]bool{}
 		seenViol := map[string]bool{}
+		raceSeen := map[string]int{}
+		raceConfirmed := map[string]bool{}
 		for _, pth := range paths {
 			v := vecOf[pth]
 			r, ok := res[pth]
@@ -438,6 +440,23 @@ func cmdCheck(args []string) {
 				}
 			default:
 				reproduced := false
+				if strings.HasPrefix(v.Label, "frame:") && r.Outcome == "pass" {
+					// a frame-condition candidate (unsynchronised write to shared state) is
+					// confirmed by the race detector: the same replay with two goroutines
+					raceKey := v.Harness + "|" + v.Label
+					if raceSeen[raceKey] < 1 {
+						raceSeen[raceKey]++
+						_, rout, _ := nativeReplay(*repo, hdir, work, []string{pth}, true)
+						if strings.Contains(rout, "WARNING: DATA RACE") {
+							raceConfirmed[raceKey] = true
+							lines = append(lines, fmt.Sprintf("RACE-CONFIRMED %s %q: go test -race reports a data race for this replay", v.Harness, v.Label))
+						}
+					}
+					if raceConfirmed[raceKey] {
+						r.Outcome = "assert"
+						r.Label = "data race reported by the race detector"
+					}
+				}
 				switch v.Kind {
 				case "assert":
 					reproduced = r.Outcome == "assert" || r.Outcome == "panic" || r.Outcome == "hang"
